@@ -47,3 +47,49 @@ Proof. vm_compute. reflexivity. Qed.
 
 Print Assumptions weight_agrees.
 Print Assumptions precedences_agree.
+
+(* ---- the operator tokens of each precedence level, decoded by factgen from the token-set tests of the generated
+        expression(_p) loop, and the lexer's punctuation table against the generated LiteralNames ---- *)
+Lemma punct_literals_agree : map fst Lex.puncts = Facts.punct_literals.
+Proof. reflexivity. Qed.
+Definition ops_of_level (l : nat) : list str :=
+  match find (fun x => Nat.eqb (fst x) l) Facts.level_ops with Some x => snd x | None => [] end.
+Definition mem_str (s : str) (l : list str) : bool := existsb (str_eqb s) l.
+(* a punctuation token is a binary operator of the model at level n  <->  the generated parser accepts it at level n;
+   the conditional operator sits alone at cond_level; the unary operators are the generated parser's *)
+Definition operator_tables_ok : bool :=
+  forallb (fun lp : str * punct =>
+             match binop_of (snd lp) with
+             | Some b => forallb (fun l => Bool.eqb (mem_str (fst lp) (ops_of_level l)) (Nat.eqb l (blevel b))) [2;3;4;5;6]%nat
+             | None => forallb (fun l => negb (mem_str (fst lp) (ops_of_level l))) [2;3;4;5;6]%nat
+             end
+             && Bool.eqb (mem_str (fst lp) Facts.unary_ops) (match unop_of (snd lp) with Some _ => true | None => false end)
+             && Bool.eqb (mem_str (fst lp) (ops_of_level cond_level)) (match snd lp with QUESTION => true | _ => false end))
+          Lex.puncts
+  && forallb (fun lo : nat * list str => forallb (fun o => mem_str o (map fst Lex.puncts)) (snd lo)) Facts.level_ops
+  && forallb (fun o => mem_str o (map fst Lex.puncts)) Facts.unary_ops
+  && Nat.eqb (length Facts.level_ops) 6.
+Lemma operator_tables_agree : operator_tables_ok = true.
+Proof. vm_compute. reflexivity. Qed.
+Lemma str_eqb_true_eq : forall a b : str, str_eqb a b = true -> a = b.
+Proof. induction a as [|x s IH]; intros [|y t] E; try discriminate; [reflexivity|]. cbn in E. apply andb_prop in E as [E1 E2]. apply N.eqb_eq in E1. subst. f_equal. apply IH. exact E2. Qed.
+(* the Prop reading of the first clause: the level the model gives a binary operator is the level at which the
+   generated parser accepts its token *)
+Lemma binop_level_from_source : forall lit p b, In (lit, p) Lex.puncts -> binop_of p = Some b ->
+  In lit (ops_of_level (blevel b)) /\ forall l, In l [2;3;4;5;6]%nat -> l <> blevel b -> ~ In lit (ops_of_level l).
+Proof.
+  intros lit p b Hin Hb. pose proof operator_tables_agree as H. unfold operator_tables_ok in H.
+  do 3 (apply andb_prop in H as [H _]).
+  rewrite forallb_forall in H. specialize (H _ Hin). cbn [fst snd] in H.
+  do 2 (apply andb_prop in H as [H _]). rewrite Hb in H. rewrite forallb_forall in H.
+  assert (M : forall l, mem_str lit (ops_of_level l) = true <-> In lit (ops_of_level l)).
+  { intros l. unfold mem_str. rewrite existsb_exists. split.
+    - intros [x [Hx E]]. apply str_eqb_true_eq in E. subst. exact Hx.
+    - intros Hx. exists lit. split; [exact Hx|]. clear. induction lit as [|c r IH]; [reflexivity|]. cbn. rewrite N.eqb_refl. exact IH. }
+  split.
+  - assert (Hl : In (blevel b) [2;3;4;5;6]%nat) by (destruct b; cbn; auto 10).
+    specialize (H _ Hl). rewrite Nat.eqb_refl in H. apply Bool.eqb_prop in H. apply M. exact H.
+  - intros l Hl Hne Hc. specialize (H _ Hl). apply M in Hc. rewrite Hc in H.
+    apply Bool.eqb_prop in H. symmetry in H. apply Nat.eqb_eq in H. contradiction.
+Qed.
+Print Assumptions binop_level_from_source.
